@@ -127,6 +127,23 @@ def cases(ctx):
                 m = frame([(15, 1, st), (16, 1, sign), (17, 9, raw)])
                 v = raw - 512 if sign else raw
                 yield dict(op="temp45 " + m, real=("pyModeS.commb.temp45", [m]), expect=fr(F(v, 4)), tag="temp45")
+    # the empty register (all 56 MB bits zero) and the saturated one (all ones) through every decoder: the two
+    # unconditional temperature decoders report 0 / -0.25 there, every status-gated decoder None / its top value
+    for df in (20, 21):
+        for bgname, bit in (("zero", 0), ("one", 1)):
+            m = hex_of(spec.commb_frame(rng, df, [], mb_bg=bgname), rng.choice(["upper", "lower"]))
+            v44 = -1 if bit else 0
+            yield dict(op="temp44 " + m, real=("pyModeS.commb.temp44", [m]), expect="%s|%s" % (fr(F(v44, 4)), fr(F(v44, 8))), tag="temp44-" + bgname)
+            yield dict(op="temp45 " + m, real=("pyModeS.commb.temp45", [m]), expect=fr(F(-1 if bit else 0, 4)), tag="temp45-" + bgname)
+            yield dict(op="wind44 " + m, real=("pyModeS.commb.wind44", [m]),
+                       expect=("511|%s" % fr(F(511 * 180, 256))) if bit else "None|None", tag="wind44-" + bgname)
+            yield dict(op="ovc10 " + m, real=("pyModeS.commb.ovc10", [m]), expect=str(bit), tag="ovc10-" + bgname)
+            for name, row in ROWS.items():
+                mod, sb, sg, msb, lsb, scale, off, wrap = row
+                w = lsb - msb + 1
+                path = ("pyModeS.commb." if mod != "bds53" else "pyModeS.decoder.bds.bds53.") + name
+                yield dict(op="%s %s" % (name, m), real=(path, [m]), expect=expected(row, bit, bit, (1 << w) - 1 if bit else 0),
+                           tag=name + "-" + bgname, info=dict(name=name, raw=(1 << w) - 1 if bit else 0, sign=bit, status=bit))
     for spd in range(512):
         for st in (0, 1):
             d = rng.randrange(512) if spd % 2 else spd
